@@ -86,6 +86,10 @@ def build(scn, with_faults=True):
         h.trials = o['trials']
     if 'accuracy' in o:
         h.accuracy = o['accuracy']
+    if 'headerror' in o:
+        h.headerror = o['headerror']
+    if 'flowchange' in o:
+        h.flowchange = o['flowchange']
     if 'default_pattern' in o:
         h.pattern = o['default_pattern']
 
